@@ -293,6 +293,7 @@ pub fn run(ctx: &Ctx) -> Report {
     }
     // long inputs: clauses with up to maxk literals and lists of up to maxk unit clauses
     explicit.push((3, long_lists(ctx.tier.pick(9, 14)), "n3_long_clauses_and_long_unit_lists".to_string()));
+    explicit.push((3, long_unit_lists(&ctx.tier.pick(vec![32, 33], vec![16, 17, 31, 32, 33, 48, 64, 65])).into_iter().step_by(ctx.tier.pick(4, 1)).collect(), "n3_unit_lists_around_powers_of_two".to_string()));
     // five variables: the same literal occurrences grouped differently under x and under !x
     // (two residual formulas over the same assigned variables whose literals coincide)
     {
